@@ -1247,6 +1247,26 @@ def _parse_expression(expression, doc_dict, ignore_missing_keys=False):
 filtering.register_parse_expression(_parse_expression)
 
 
+def _validate_accumulators(output_fields):
+    """Check the accumulators of a $group or a $bucket, whether or not there is a document."""
+    for field, value in output_fields.items():
+        if field == '_id':
+            continue
+        for operator in value.keys():
+            if operator in _GROUPING_OPERATOR_MAP or operator in ('$addToSet', '$push'):
+                continue
+            if operator in group_operators:
+                raise NotImplementedError(
+                    'Although %s is a valid group operator for the '
+                    'aggregation pipeline, it is currently not implemented '
+                    'in Mongomock.' % operator)
+            raise NotImplementedError(
+                '%s is not a valid group operator for the aggregation '
+                'pipeline. See http://docs.mongodb.org/manual/meta/'
+                'aggregation-quick-reference/ for a complete list of '
+                'valid operators.' % operator)
+
+
 def _accumulate_group(output_fields, group_list):
     doc_dict = {}
     for field, value in output_fields.items():
@@ -1276,17 +1296,6 @@ def _accumulate_group(output_fields, group_list):
                     doc_dict[field] = values
                 else:
                     doc_dict[field].extend(values)
-            elif operator in group_operators:
-                raise NotImplementedError(
-                    'Although %s is a valid group operator for the '
-                    'aggregation pipeline, it is currently not implemented '
-                    'in Mongomock.' % operator)
-            else:
-                raise NotImplementedError(
-                    '%s is not a valid group operator for the aggregation '
-                    'pipeline. See http://docs.mongodb.org/manual/meta/'
-                    'aggregation-quick-reference/ for a complete list of '
-                    'valid operators.' % operator)
     return doc_dict
 
 
@@ -1442,6 +1451,7 @@ def _handle_graph_lookup_stage(in_collection, database, options):
 
 
 def _handle_group_stage(in_collection, unused_database, options):
+    _validate_accumulators(options)
     grouped_collection = []
     _id = options['_id']
     if _id is not None:
@@ -1493,6 +1503,7 @@ def _handle_bucket_stage(in_collection, unused_database, options):
         raise OperationFailure(
             "The 'boundaries' option to $bucket must be sorted in ascending order")
     output_fields = options.get('output', {'count': {'$sum': 1}})
+    _validate_accumulators(output_fields)
     default_value = options.get('default', None)
     try:
         is_default_last = default_value >= boundaries[-1]
